@@ -4,6 +4,7 @@ import a4_header
 import a4_twin
 import io_words
 import size_branches
+import dead_reads
 import json, os
 from vlib.core import VERIF
 
@@ -24,6 +25,10 @@ def run(facts, tier):
     obs += o
     rules.append({"rule": "writer-twin", "instances": len([x for x in o if x["status"] != "info"]), "min": 20,
                   "text": "stream writer and byte writer of one type are twin programs modulo the write primitive (fields, widths, order, conditions, state flowing into the image)"})
+    o = dead_reads.obligations(facts)
+    obs += o
+    rules.append({"rule": "reader dead-reads", "instances": len([x for x in o if x["status"] != "info"]), "min": 250,
+                  "text": "no return of a reader lies between the read of an image value and the place where that value is used (restored state is complete on every path)"})
     sarmed = set(json.load(open(os.path.join(VERIF, "spec", "size_armed.json")))["armed"])
     o = size_branches.obligations(facts, sarmed)
     obs += o
